@@ -32,7 +32,7 @@ PROPS["C09"] = {
                     "SHA-512 behaves as a random function for the constructed inputs (no accidental validity of forged entries)"],
     "units": [
         {
-            "pkg": "primitives/ed25519", "configs": ALL4,
+            "pkg": "primitives/ed25519", "configs": ALL4T,
             "tests": {
                 "TestC09Batch": T(1600, 50000, shards={"quick": 8, "thorough": 16}),
                 "TestC09Expanded": T(1200, 30000, shards={"quick": 4, "thorough": 16}),
@@ -46,7 +46,7 @@ PROPS["C09"] = {
             "tests": {"TestC09Randomizers": T(600, 20000)},
         },
         {
-            "pkg": "primitives/ed25519/extra/cache", "configs": ALL4,
+            "pkg": "primitives/ed25519/extra/cache", "configs": ALL4T,
             "tests": {
                 "TestC09Cache": T(1600, 40000, shards={"quick": 4, "thorough": 16}),
                 "FuzzC09Cache": FUZZ(90, configs=["default"], workers=4),
